@@ -301,8 +301,38 @@ def all_composed(rng, thorough=False):
             yield fname, sname, sp, thunk, tags, ref
 
 
-def all_functionals(rng, thorough=False):
+def cspaces():
+    yield 'cn4', odl.cn(4)
+    yield 'cn4w', odl.cn(4, weighting=2.5)
+    yield 'cdiscr5', odl.uniform_discr(0, 2, 5, dtype=complex)
+
+
+def cfuncs(sp, rng):
+    """Real-valued functionals on complex spaces (norms, their balls, and derived forms).  Inner products enter the oracles
+    through their real part: a complex Hilbert space is a real one with <x, y>_R = Re <x, y>."""
+    g = lambda: rand_el(sp, rng)
+    yield 'L1Norm', lambda: S.L1Norm(sp), ('complex',)
+    yield 'L2Norm', lambda: S.L2Norm(sp), ('complex',)
+    yield 'L2NormSquared', lambda: S.L2NormSquared(sp), ('complex', 'smooth')
+    yield 'IndicatorLpUnitBall(2)', lambda: S.IndicatorLpUnitBall(sp, 2), ('complex', 'indicator')
+    yield 'IndicatorLpUnitBall(inf)', lambda: S.IndicatorLpUnitBall(sp, np.inf), ('complex', 'indicator')
+    yield 'ZeroFunctional', lambda: S.ZeroFunctional(sp), ('complex', 'smooth')
+    yield 'IndicatorZero', lambda: S.IndicatorZero(sp), ('complex', 'indicator')
+    yield 'translated(L1Norm)', lambda: S.L1Norm(sp).translated(g()), ('complex',)
+    yield 'translated(L2NormSquared)', lambda: S.L2NormSquared(sp).translated(g()), ('complex', 'smooth')
+    yield 'left-scaled(L1Norm)', lambda: 2.5 * S.L1Norm(sp), ('complex',)
+    yield 'right-scaled(L2Norm)', lambda: S.L2Norm(sp) * 0.5, ('complex',)
+    yield 'L1Norm.convex_conj', lambda: S.L1Norm(sp).convex_conj, ('complex', 'indicator')
+    yield 'L2NormSquared.convex_conj', lambda: S.L2NormSquared(sp).convex_conj, ('complex', 'smooth')
+    yield 'L2Norm.convex_conj', lambda: S.L2Norm(sp).convex_conj, ('complex', 'indicator')
+
+
+def all_functionals(rng, thorough=False, with_complex=False):
     """Yield (fname, sname, space, thunk, tags)."""
+    if with_complex:
+        for sname, sp in cspaces():
+            for fname, thunk, tags in cfuncs(sp, rng):
+                yield fname, sname, sp, thunk, tags
     for sname, sp in spaces():
         for fname, thunk, tags in funcs(sp, rng):
             yield fname, sname, sp, thunk, tags
